@@ -14,6 +14,8 @@ META = {
 META["explanation"] += " " + 'Also: clamp / power-of-two typestate of every resize_target store, iterator continuation discipline, emptiness walks classify every loaded word (destroy succeeds iff empty).'
 
 
+META["explanation"] += " " + "Also (rounds 11-12): allocator discipline (only the default cds_lfht_alloc hooks call libc's allocator), whole-table walks start at bucket 0, destroy releases nothing before delete_bucket succeeded, create_bucket loop bounds."
+
 RULES = [
     ("C08.valid", lambda c, r: lfht.rule_valid(c, r, "C08.valid")),
     ("C08.class", lambda c, r: lfht.rule_class(c, r, "C08.class")),
